@@ -11,6 +11,7 @@ import (
 	zerr "github.com/DemoHn/Zn/pkg/error"
 	"github.com/DemoHn/Zn/pkg/exec"
 	r "github.com/DemoHn/Zn/pkg/runtime"
+	"github.com/DemoHn/Zn/pkg/syntax"
 	"github.com/DemoHn/Zn/pkg/syntax/zh"
 	"pgregory.net/rapid"
 
@@ -101,11 +102,12 @@ func checkVarInput(src string) []h.Failure {
 	var err error
 	exec.VerifTicks, exec.VerifTickBudget, exec.VerifMaxDepth, exec.VerifDepth = 0, 100000, 2000, 0
 	zh.VerifTicks, zh.VerifTickBudget = 0, int64(64*len([]rune(src))+256)
+	syntax.VerifTicks, syntax.VerifTickBudget = 0, int64(16*len([]rune(src))+256)
 	var kind, msg, site string
 	h.Capture(func() {
 		kind, msg, site = h.Guard(func() { m, err = exec.ExecVarInputText(src) })
 	})
-	exec.VerifTickBudget, exec.VerifMaxDepth, zh.VerifTickBudget = 0, 0, 0
+	exec.VerifTickBudget, exec.VerifMaxDepth, zh.VerifTickBudget, syntax.VerifTickBudget = 0, 0, 0, 0
 	switch kind {
 	case h.KBudget:
 		return []h.Failure{{Sig: "varinput/budget-exceeded@" + site, Msg: fmt.Sprintf("input text %q: did not terminate within budget (%s)", src, msg)}}
